@@ -87,12 +87,13 @@ deriving Repr, DecidableEq
     phasepoints[0] (only after the scan); `i0 > i2` → AssertionError. -/
 def computeWeight (ops : List Int) (i0 i1 i2 : Int) (wf : Bool) : Except Err Nat :=
   let w := if wf then weight i1 i2 ops else 1
-  match ops.head?, ops.getLast? with
-  | some first, some last =>
-    if i0 ≤ i2 then
+  -- `get_start_point` asserts `left <= right` before it touches `phasepoints[0]`
+  if i0 ≤ i2 then
+    match ops.head?, ops.getLast? with
+    | some first, some last =>
       if sidesDiffer (startPoint i0 i2 first) (endPoint i0 i2 last) && wf then .ok (2 * w) else .ok w
-    else .error .assert
-  | _, _ => .error .index
+    | _, _ => .error .index
+  else .error .assert
 
 def maxOf : List Int → Option Int
   | [] => none
